@@ -153,7 +153,14 @@ func Graph(rng *rand.Rand, name string, o GraphOpts) *spec.Spec {
 				vals := uniqVals(pn)
 				if how == "int" {
 					for j := range vals {
-						vals[j] = fmt.Sprintf("%d", 100+uniq+j)
+						switch (uniq + j) % 3 {
+						case 0:
+							vals[j] = fmt.Sprintf("%d", 100+uniq+j)
+						case 1: // odd numbers above 2^53 (ids, seeds): an int is not a float64
+							vals[j] = fmt.Sprintf("%d", 9007199254740993+2*int64(uniq+j))
+						default: // nanosecond time stamps
+							vals[j] = fmt.Sprintf("%d", 1696500000123456789+int64(uniq+j))
+						}
 					}
 					uniq += pn
 				} else if how == "float" {
